@@ -18,4 +18,6 @@ EXTRAS = [
     lambda rep, fb, tier: guards.rule_const_subscript(rep, fb),
     lambda rep, fb, tier: origin.rule_origin(rep, fb),
     lambda rep, fb, tier: __import__("vf.rules.canon", fromlist=["x"]).rule_canon(rep, fb),
+    lambda rep, fb, tier: __import__("vf.rules.records", fromlist=["x"]).rule_regular_length(rep, fb),
+    lambda rep, fb, tier: __import__("vf.rules.methodrules", fromlist=["x"]).rule_option_shifts(rep, fb),
 ]
